@@ -433,8 +433,8 @@ def plan_remove(w: World, op: dict) -> Plan:
         with_kids = [g for g in group if g.children]
         if len(group) > 1:
             nested = any(a.is_descendant_of(b) for a in group for b in group if a is not b)
-            if nested or any(_unnest_collides(g) for g in with_kids):
-                return Plan(EXCLUDED, why="keep_children+with_clones with nesting/collision")
+            if nested:
+                return Plan(EXCLUDED, why="keep_children+with_clones with nested members")
             # two members under one grandparent would un-nest into each other
             return_excl = False
             for a in with_kids:
